@@ -60,6 +60,18 @@ def _node(ctx):
         n = MM.equiv_check(ctx, PROP, "node", f"(a {'&' if k == 'and' else '|'} b) does not evaluate as the "
                            f"{'conjunction' if k == 'and' else 'disjunction'}", [a, b], v, comb, cap=ctx.env_cap_top,
                            detail={"op": k})
+        # repeating the call on the same operand objects must give an equal result with the same meaning
+        try:
+            again = (a & b) if k == "and" else (a | b)
+            if type(again) is not type(v) or not (again == v):
+                MM.equiv_check(ctx, PROP, "node", "repeating the same call on the same objects gives a different meaning",
+                               [v], again, lambda x: x[0], cap=40, detail={"op": k, "first": MM.mtext(v), "second": MM.mtext(again),
+                                                                           "group": "repeat"})
+        except MM.CaseTimeout:
+            raise
+        except Exception as e:  # noqa: BLE001
+            violation(PROP, "node", f"repeating the same call raised {type(e).__name__}",
+                      {"op": k, "a": MM.mtext(a), "b": MM.mtext(b), "group": "repeat"})
         if v is not a and v is not b:
             ctx.nontrivial(k, MM.mtext(a), MM.mtext(b))
         ctx.shape("result:" + type(v).__name__)
